@@ -76,6 +76,34 @@ func expandC14(base *h.Scenario, hi *Hist, r *Rand, tier string) []*h.Scenario {
 		}
 		v.Mode = "inject"
 		out = append(out, v)
+		// the output (or a filler) dies at the very moment of the cancellation: the next call after
+		// step t fails, which is the render the container performs while it shuts down
+		if len(base.Faults) == 0 && r.Bool(0.25) {
+			writes, fills := 0, map[int]int{}
+			for i := range hi.Log {
+				e := &hi.Log[i]
+				if e.Step > t {
+					break
+				}
+				switch e.Kind {
+				case h.EvWrite:
+					writes++
+				case h.EvFill:
+					fills[e.ID]++
+				}
+			}
+			w := cloneScenario(v)
+			if r.Bool(0.5) || len(fills) == 0 {
+				w.Faults = []h.Fault{{Site: h.FaultOutWrite, K: writes + 1}}
+			} else {
+				for b, n := range fills {
+					if len(w.Faults) == 0 || b < w.Faults[0].Bar {
+						w.Faults = []h.Fault{{Site: h.FaultFill, Bar: b, K: n + 1}}
+					}
+				}
+			}
+			out = append(out, w)
+		}
 	}
 	return out
 }
@@ -231,8 +259,12 @@ func judgeC14(hi *Hist) []*Violation {
 				}
 				seen[b] = true
 			}
-			// bars that can not have left the container must be listed
+			// bars that can not have left the container must be listed (a cycle that failed with a render
+			// error does not hand its bars back: after an injected fault only the count of values is judged)
 			for _, bf := range facts {
+				if len(hi.Sc.Faults) > 0 {
+					break
+				}
 				if bf.Added && !bf.Queued && !mayBeRemovable(hi, bf) && !poppable(hi, bf) && !seen[bf.Idx] && e.A == 1 {
 					add("notifier-missing", "%s at step %d: the notifier value %v does not list bar %d, which Add returned and which is never removed", kind, hi.Sc.InjectAt, e.V, bf.Idx)
 				}
